@@ -94,6 +94,11 @@ func VerifySignature(pubKey crypto.PublicKey, data []byte, sig DigitallySigned) 
 		if dsaSig.R.Sign() <= 0 || dsaSig.S.Sign() <= 0 {
 			return errors.New("DSA signature contained zero or negative values")
 		}
+		// dsa.Verify leaves truncating the digest to the length of the
+		// subgroup (FIPS 186-3 section 4.6) to its caller.
+		if n := (dsaKey.Q.BitLen() + 7) / 8; len(hash) > n {
+			hash = hash[:n]
+		}
 		if !dsa.Verify(dsaKey, hash, dsaSig.R, dsaSig.S) {
 			return errors.New("failed to verify DSA signature")
 		}
